@@ -37,6 +37,9 @@ run)
     fi
     seed=$(( (${VERIF_SEED:-20260927} % 2147483647 + 2147483647) % 2147483647 + 1 ))
     runs=${LSVERIF_FUZZ_RUNS:-150000}
+    # exploration budget per space: whichever comes first, the run count or the wall clock
+    # (running out of either only ends the exploration; it is never a verdict)
+    secs=${LSVERIF_FUZZ_SECS:-180}
     jobs=${LSVERIF_FUZZ_JOBS:-16}
     rc=0
     while read -r si sname; do
@@ -45,7 +48,7 @@ run)
         "$BIN" corpus "$id" "$si" "$W/corpus" 64 "$seed" >/dev/null
         t0=$(date +%s)
         ( cd "$W" && LSVERIF_FUZZ_PROP="$id" LSVERIF_FUZZ_SPACE="$si" LSVERIF_FUZZ_OUT="$W/out" \
-            "$TGT" corpus -seed="$seed" -runs="$runs" -len_control=0 -max_len=4096 -jobs="$jobs" -workers="$jobs" \
+            "$TGT" corpus -seed="$seed" -runs="$runs" -max_total_time="$secs" -len_control=0 -max_len=1536 -jobs="$jobs" -workers="$jobs" \
             -timeout=60 -rss_limit_mb=4096 -malloc_limit_mb=3000 -print_final_stats=1 -artifact_prefix="$W/out/" >"$W/driver.log" 2>&1 )
         t1=$(date +%s)
         execs=$(cat "$W"/fuzz-*.log 2>/dev/null | grep -a "stat::number_of_executed_units" | awk '{s+=$2} END{print s+0}')
@@ -71,7 +74,7 @@ run)
             echo "INCONCLUSIVE property=$id fuzz stage hit a timeout/oom artifact in space $sname"
             [ $rc -eq 0 ] && rc=2
         fi
-        merge_evidence "$id" "{\"engine\":\"libFuzzer (cargo-fuzz, ASan, debug assertions, hooks on)\",\"space\":\"$sname\",\"status\":\"$status\",\"seed\":$seed,\"jobs\":$jobs,\"runs_per_job\":$runs,\"executions\":$execs,\"edge_coverage\":$cov,\"corpus_files\":$ncorp,\"wall_s\":$((t1-t0)),\"seed_corpus\":\"64 byte-encoded random cases + empty input\"}"
+        merge_evidence "$id" "{\"engine\":\"libFuzzer (cargo-fuzz, ASan, debug assertions, hooks on)\",\"space\":\"$sname\",\"status\":\"$status\",\"seed\":$seed,\"jobs\":$jobs,\"runs_per_job\":$runs,\"max_seconds\":$secs,\"executions\":$execs,\"edge_coverage\":$cov,\"corpus_files\":$ncorp,\"wall_s\":$((t1-t0)),\"seed_corpus\":\"64 byte-encoded random cases + empty input\"}"
         echo "$id fuzz stage space=$sname: $execs executions, cov $cov, corpus $ncorp, ${status}, $((t1-t0))s"
         rm -rf "$W"
     done < <("$BIN" fuzzspaces "$id")
